@@ -27,10 +27,8 @@
 use std::pin::Pin;
 use std::task::{Context, Poll, Waker};
 use std::time::Duration;
-#[cfg(not(jsonrpsee_verif))]
-use std::time::Instant;
 #[cfg(jsonrpsee_verif)]
-use tokio::time::Instant;
+use crate::verif::std_with_tokio_clock as std;
 
 use futures_util::stream::FuturesUnordered;
 use futures_util::{Stream, StreamExt, Future};
@@ -73,13 +71,13 @@ impl<S: Stream> Stream for IntervalStream<S> {
 #[allow(unused)]
 pub(crate) enum InactivityCheck {
 	Disabled,
-	Enabled { inactive_dur: Duration, last_active: Instant, count: usize, max_count: usize }
+	Enabled { inactive_dur: Duration, last_active: std::time::Instant, count: usize, max_count: usize }
 }
 
 impl InactivityCheck {
 	#[cfg(feature = "async-client")]
 	pub(crate) fn new(_inactive_dur: Duration, _max_count: usize) -> Self {
-		Self::Enabled { inactive_dur: _inactive_dur, last_active: Instant::now(), count: 0, max_count: _max_count }
+		Self::Enabled { inactive_dur: _inactive_dur, last_active: std::time::Instant::now(), count: 0, max_count: _max_count }
 	}
 
 	pub(crate) fn is_inactive(&mut self) -> bool {
@@ -97,7 +95,7 @@ impl InactivityCheck {
 
 	pub(crate) fn mark_as_active(&mut self) {
 		if let Self::Enabled { last_active, .. } = self {
-			*last_active = Instant::now();
+			*last_active = std::time::Instant::now();
 		}
 	}
 }
